@@ -31,10 +31,10 @@
 (***************************************************************************)
 EXTENDS Integers, Sequences, FiniteSets, TLC, Json
 
-CONSTANTS Slots, Kinds, RegVals, SingVals, MassCacheKeyed, MassHonoursExplicit, MaxDepth, EmitJson
+CONSTANTS Slots, Kinds, RegVals, SingVals, MassCacheKeyed, MassHonoursExplicit, FmmCacheKeyed, MaxDepth, EmitJson
 
-VARIABLES glob, pobj, op, mass, last, depth, hist
-vars == <<glob, pobj, op, mass, last, depth, hist>>
+VARIABLES glob, pobj, op, mass, fmm, last, depth, hist
+vars == <<glob, pobj, op, mass, fmm, last, depth, hist>>
 
 None == [kind |-> "none", pref |-> "-", weak |-> <<>>, strong |-> <<>>, atcreate |-> <<>>]
 Params(o) == IF op[o].pref = "G" THEN glob ELSE pobj
@@ -44,6 +44,7 @@ Init ==
     /\ pobj = [reg |-> 4, sing |-> 4]
     /\ op = [o \in Slots |-> None]
     /\ mass = {}
+    /\ fmm = {}
     /\ last = [call |-> "init", slot |-> 0, res |-> <<>>]
     /\ depth = 0
     /\ hist = <<>>
@@ -57,13 +58,13 @@ SetGlobal(f, v) ==
     /\ glob' = IF f = "reg" THEN [glob EXCEPT !.reg = v] ELSE [glob EXCEPT !.sing = v]
     /\ glob' # glob
     /\ Obs("set_global", 0, <<>>, <<f, v>>)
-    /\ UNCHANGED <<pobj, op, mass>>
+    /\ UNCHANGED <<pobj, op, mass, fmm>>
 
 Mutate(f, v) ==
     /\ pobj' = IF f = "reg" THEN [pobj EXCEPT !.reg = v] ELSE [pobj EXCEPT !.sing = v]
     /\ pobj' # pobj
     /\ Obs("mutate_params", 0, <<>>, <<f, v>>)
-    /\ UNCHANGED <<glob, op, mass>>
+    /\ UNCHANGED <<glob, op, mass, fmm>>
 
 \* the potential evaluator reads the regular order when it is CONSTRUCTED (numba_assemblers.potential_assembler)
 Create(o, k, p) ==
@@ -71,7 +72,7 @@ Create(o, k, p) ==
     /\ op' = [op EXCEPT ![o] = [kind |-> k, pref |-> p, weak |-> <<>>, strong |-> <<>>,
                                 atcreate |-> IF p = "G" THEN <<glob.reg>> ELSE <<pobj.reg>>]]
     /\ Obs("create", o, <<>>, <<k, p>>)
-    /\ UNCHANGED <<glob, pobj, mass>>
+    /\ UNCHANGED <<glob, pobj, mass, fmm>>
 
 \* effective inputs of an assembly started now
 Eff(o) == IF op[o].kind = "idt" THEN <<Params(o).reg, 0>> ELSE <<Params(o).reg, Params(o).sing>>
@@ -81,7 +82,24 @@ WeakForm(o) ==
     /\ LET w == IF op[o].weak = <<>> THEN Eff(o) ELSE op[o].weak
        IN /\ op' = [op EXCEPT ![o].weak = w]
           /\ Obs("weak_form", o, w, <<>>)
+    /\ UNCHANGED <<glob, pobj, mass, fmm>>
+
+\* an operator created with assembler='fmm' (kind "fmm", a single layer): its first weak_form asks the interface cache for an interface
+\* of the current regular order (FmmCacheKeyed = TRUE, the code since fix 3c29256) - or gets whatever interface the grid already has
+\* (FALSE: the cache key before the fix); the singular part is assembled with the operator's parameters.  clear_fmm_cache empties the cache.
+FmmOrderNow(o) == IF FmmCacheKeyed \/ fmm = {} THEN Params(o).reg ELSE CHOOSE m \in fmm : TRUE
+FmmWeakForm(o) ==
+    /\ op[o].kind = "fmm"
+    /\ LET w == IF op[o].weak = <<>> THEN <<FmmOrderNow(o), Params(o).sing>> ELSE op[o].weak
+       IN /\ op' = [op EXCEPT ![o].weak = w]
+          /\ Obs("weak_form", o, w, <<>>)
+    /\ fmm' = IF op[o].weak # <<>> THEN fmm ELSE IF FmmCacheKeyed THEN fmm \cup {Params(o).reg} ELSE IF fmm = {} THEN {Params(o).reg} ELSE fmm
     /\ UNCHANGED <<glob, pobj, mass>>
+ClearFmm ==
+    /\ fmm # {}
+    /\ fmm' = {}
+    /\ Obs("clear_fmm", 0, <<>>, <<>>)
+    /\ UNCHANGED <<glob, pobj, op, mass>>
 
 \* the mass matrix is assembled by identity(space, space, space) with the GLOBAL parameters
 MassOrderNow == IF MassCacheKeyed THEN glob.reg
@@ -89,7 +107,7 @@ MassOrderNow == IF MassCacheKeyed THEN glob.reg
 MassMatrix ==
     /\ mass' = IF MassCacheKeyed THEN mass \cup {glob.reg} ELSE IF mass = {} THEN {glob.reg} ELSE mass
     /\ Obs("mass_matrix", 0, <<MassOrderNow>>, <<>>)
-    /\ UNCHANGED <<glob, pobj, op>>
+    /\ UNCHANGED <<glob, pobj, op, fmm>>
 
 \* strong_form hands the operator's own parameter object to the mass-matrix assembly (MassHonoursExplicit = TRUE, the code since the fix
 \* d373db3); before, the mass matrix was always assembled with the global object (FALSE: negative configuration)
@@ -104,12 +122,12 @@ StrongForm(o) ==
           /\ Obs("strong_form", o, w \o s, <<>>)
           /\ mass' = IF op[o].strong # <<>> THEN mass
                      ELSE IF MassCacheKeyed THEN mass \cup {MassOrderFor(o)} ELSE IF mass = {} THEN {MassOrderFor(o)} ELSE mass
-    /\ UNCHANGED <<glob, pobj>>
+    /\ UNCHANGED <<glob, pobj, fmm>>
 
 Evaluate(o) ==
     /\ op[o].kind = "pot"
     /\ Obs("evaluate", o, op[o].atcreate, <<>>)
-    /\ UNCHANGED <<glob, pobj, op, mass>>
+    /\ UNCHANGED <<glob, pobj, op, mass, fmm>>
 
 Next ==
     /\ depth < MaxDepth
@@ -118,8 +136,9 @@ Next ==
        \/ \E v \in RegVals : Mutate("reg", v)
        \/ \E v \in SingVals : Mutate("sing", v)
        \/ \E o \in Slots, k \in Kinds, p \in {"G", "P"} : Create(o, k, p)
-       \/ \E o \in Slots : WeakForm(o) \/ StrongForm(o) \/ Evaluate(o)
+       \/ \E o \in Slots : WeakForm(o) \/ FmmWeakForm(o) \/ StrongForm(o) \/ Evaluate(o)
        \/ MassMatrix
+       \/ ClearFmm
 Spec == Init /\ [][Next]_vars
 
 ---------------------------------------------------------------------------
@@ -134,7 +153,7 @@ SameObject ==
 
 \* first weak assembly uses the values of the operator's own parameter object at that moment
 ExplicitHonoured ==
-    [][\A o \in Slots : (op[o].kind \in {"slp", "hyp", "idt"} /\ op[o].weak = <<>> /\ op'[o].weak # <<>>)
+    [][\A o \in Slots : (op[o].kind \in {"slp", "hyp", "idt", "fmm"} /\ op[o].weak = <<>> /\ op'[o].weak # <<>>)
                             => op'[o].weak = Eff(o)]_vars
 
 \* first strong-form evaluation uses the mass matrix a fresh process would compute now from the operator's own parameter object
@@ -144,7 +163,7 @@ NoInterference ==
                             => op'[o].strong = <<Params(o).reg>>]_vars
 
 \* exhaustive runs look at the state without the history variables
-View == <<glob, pobj, op, mass, depth>>
+View == <<glob, pobj, op, mass, fmm, depth>>
 
 Emit == (EmitJson /\ depth = MaxDepth) => PrintT("OBL " \o ToJson([hist |-> hist]))
 
